@@ -2,6 +2,7 @@ import SgVerif.C29.Lemmas
 import SgVerif.C29.LemmasBcast
 import SgVerif.C29.LemmasPair
 import SgVerif.C29.LemmasReduce
+import SgVerif.C29.LemmasSpec
 /-
 C29 — Every collective algorithm computes the MPI result.  Property theorems.
 
@@ -165,6 +166,209 @@ theorem transpose_entry {β : Type} (n : Nat) (m : List (List β)) (r j : Nat) (
   rw [transposeN_getElem? n m r hr]
   simp only [Option.bind_some]
   exact filterMap_col m r j hrow
+
+/-! ### algebra of the specifications -/
+
+/-- **reduce_scatter = scatterv ∘ reduce**: reduce to `root`, put the result in the root's buffer and scatter it with
+the counts `cnts` at consecutive displacements -/
+theorem reduce_scatter_eq_scatter_reduce (op : α → α → α) (root : Nat) (cnts : List Nat) (bufs : Bufs α) (res : Res α)
+    (v : List α) (hr : reduce op root bufs = some res) (hv : res[root]? = some (some v)) :
+    scatterv root cnts (offsets 0 cnts) (bufs.set root v) = reduceScatter op cnts bufs := by
+  unfold reduce at hr
+  split at hr
+  · rename_i hlt
+    cases hra : reduceAll op bufs with
+    | none => simp [hra] at hr
+    | some w =>
+      simp only [hra, Option.map_some, Option.some.injEq] at hr
+      subst hr
+      rw [onlyAt_getElem? _ _ _ _ hlt] at hv
+      simp only [if_true, Option.some.injEq] at hv
+      subst hv
+      unfold scatterv reduceScatter
+      simp [hra, hlt, offsets_length]
+  · cases hr
+
+/-- **reduce_scatter_block = scatter ∘ reduce** (all buffers of `np * c` cells) -/
+theorem reduce_scatter_block_eq_scatter_reduce (op : α → α → α) (root c : Nat) (bufs : Bufs α) (res : Res α)
+    (v : List α) (hlen : ∀ b ∈ bufs, b.length = bufs.length * c) (hr : reduce op root bufs = some res)
+    (hv : res[root]? = some (some v)) :
+    scatter root c (bufs.set root v) = reduceScatter op (List.replicate bufs.length c) bufs := by
+  unfold reduce at hr
+  split at hr
+  · rename_i hlt
+    cases hra : reduceAll op bufs with
+    | none => simp [hra] at hr
+    | some w =>
+      simp only [hra, Option.map_some, Option.some.injEq] at hr
+      subst hr
+      rw [onlyAt_getElem? _ _ _ _ hlt] at hv
+      simp only [if_true, Option.some.injEq] at hv
+      subst hv
+      have hwl : w.length = bufs.length * c := by
+        cases bufs with
+        | nil => simp [reduceAll] at hra
+        | cons b bs =>
+          simp only [reduceAll, Option.some.injEq] at hra
+          subst hra
+          exact foldl_zipOp_length op _ b bs (hlen b (by simp)) (fun x hx => hlen x (by simp [hx]))
+      have hsl := slices_replicate c bufs.length 0 w (by omega)
+      unfold scatter reduceScatter
+      simp [hra, hlt, hwl, hsl]
+  · cases hr
+
+theorem transposeN_rows {β : Type} (n : Nat) (m : List (List β)) (hrow : ∀ row ∈ m, row.length = n) :
+    ∀ row ∈ transposeN n m, row.length = m.length := by
+  intro row hmem
+  obtain ⟨r, hr, hget⟩ := List.getElem_of_mem hmem
+  rw [transposeN_length] at hr
+  have h1 := transposeN_getElem? n m r hr
+  rw [List.getElem?_eq_getElem (by rw [transposeN_length]; exact hr), hget] at h1
+  rw [Option.some.inj h1]
+  exact filterMap_col_length m r (fun row' h' => by rw [hrow row' h']; exact hr)
+
+/-- **the transpose is an involution, as a list equality** (square matrix of `n` rows of `n` entries) -/
+theorem transposeN_involutive {β : Type} (n : Nat) (m : List (List β)) (hm : m.length = n)
+    (hrow : ∀ row ∈ m, row.length = n) : transposeN n (transposeN n m) = m := by
+  have hT := transposeN_rows n m hrow
+  rw [hm] at hT
+  have hTT := transposeN_rows n (transposeN n m) hT
+  rw [transposeN_length] at hTT
+  apply matrix_ext n n _ _ (transposeN_length _ _) hm hTT hrow
+  intro r j hr hj
+  rw [transpose_entry n (transposeN n m) r j hr (fun row h => by rw [hT row h]; exact hr),
+    transpose_entry n m j r hj (fun row h => by rw [hrow row h]; exact hj)]
+
+/-- **alltoall ∘ alltoall = id**: sending the received buffers back returns every rank's original send buffer -/
+theorem alltoall_involutive (c : Nat) (bufs : Bufs α) (res : Res α) (h : alltoall c bufs = some res) :
+    alltoall c (res.map (·.getD [])) = some (bufs.map some) := by
+  unfold alltoall at h
+  split at h
+  · rename_i hall
+    simp only [Option.some.injEq] at h
+    have hlen : ∀ b ∈ bufs, b.length = bufs.length * c := by
+      intro b hb; simpa using List.all_eq_true.mp hall b hb
+    have hM : (bufs.map (chunks c bufs.length)).length = bufs.length := by simp
+    have hMrow : ∀ row ∈ bufs.map (chunks c bufs.length), row.length = bufs.length := by
+      intro row hrow
+      obtain ⟨b, _, rfl⟩ := List.mem_map.mp hrow
+      exact chunks_length _ _ _
+    have hTrow := transposeN_rows bufs.length _ hMrow
+    rw [hM] at hTrow
+    -- every block of the transposed matrix has `c` cells
+    have hblk : ∀ row ∈ transposeN bufs.length (bufs.map (chunks c bufs.length)), ∀ x ∈ row, x.length = c := by
+      intro row hmem x hx
+      obtain ⟨r, hr, hget⟩ := List.getElem_of_mem hmem
+      rw [transposeN_length] at hr
+      have h1 := transposeN_getElem? bufs.length (bufs.map (chunks c bufs.length)) r hr
+      rw [List.getElem?_eq_getElem (by rw [transposeN_length]; exact hr), hget] at h1
+      rw [Option.some.inj h1] at hx
+      obtain ⟨row', hrow', hx'⟩ := filterMap_col_mem _ r x hx
+      obtain ⟨b, hb, rfl⟩ := List.mem_map.mp hrow'
+      exact chunks_mem_length c bufs.length b (hlen b hb) x hx'
+    have hres : res.map (·.getD []) = (transposeN bufs.length (bufs.map (chunks c bufs.length))).map List.flatten := by
+      rw [← h, List.map_map]; rfl
+    rw [hres]
+    have hB : ((transposeN bufs.length (bufs.map (chunks c bufs.length))).map List.flatten).length = bufs.length := by
+      rw [List.length_map, transposeN_length]
+    have hall' : (((transposeN bufs.length (bufs.map (chunks c bufs.length))).map List.flatten).all
+        fun b => decide (b.length = ((transposeN bufs.length (bufs.map (chunks c bufs.length))).map List.flatten).length * c))
+        = true := by
+      rw [hB]
+      apply List.all_eq_true.mpr
+      intro b hb
+      obtain ⟨row, hrow, rfl⟩ := List.mem_map.mp hb
+      rw [flatten_length_const c row (hblk row hrow), hTrow row hrow]
+      simp
+    unfold alltoall
+    rw [if_pos hall', hB]
+    have hch : ((transposeN bufs.length (bufs.map (chunks c bufs.length))).map List.flatten).map (chunks c bufs.length)
+        = transposeN bufs.length (bufs.map (chunks c bufs.length)) := by
+      rw [List.map_map]
+      conv => rhs; rw [← List.map_id (transposeN bufs.length (bufs.map (chunks c bufs.length)))]
+      apply List.map_congr_left
+      intro row hrow
+      exact chunks_flatten c bufs.length row (hTrow row hrow) (hblk row hrow)
+    rw [hch, transposeN_involutive bufs.length _ hM hMrow, List.map_map]
+    congr 1
+    apply List.map_congr_left
+    intro b hb
+    simp only [Function.comp]
+    rw [flatten_chunks c bufs.length b (by rw [hlen b hb]; exact Nat.le_refl _)]
+  · cases h
+
+/-- **gather ∘ scatter = id** on the root's buffer -/
+theorem gather_scatter_inverse (root c : Nat) (bufs : Bufs α) (res : Res α) (h : scatter root c bufs = some res) :
+    ∃ b, bufs[root]? = some b ∧ gather root (res.map (·.getD [])) = some (onlyAt bufs.length root b) := by
+  unfold scatter at h
+  cases hb : bufs[root]? with
+  | none => simp [hb] at h
+  | some b =>
+    have hroot : root < bufs.length := (List.getElem?_eq_some_iff.mp hb).1
+    simp only [hb] at h
+    split at h
+    · rename_i hl
+      simp only [Option.some.injEq] at h
+      refine ⟨b, rfl, ?_⟩
+      have : res.map (·.getD []) = chunks c bufs.length b := by
+        rw [← h, List.map_map]
+        conv => rhs; rw [← List.map_id (chunks c bufs.length b)]
+        apply List.map_congr_left
+        intro x _; rfl
+      rw [this]
+      unfold gather
+      rw [chunks_length, if_pos hroot, flatten_chunks c bufs.length b (by omega)]
+    · cases h
+
+/-- **scatter ∘ gather = id** on buffers of `c` cells -/
+theorem scatter_gather_inverse (root c : Nat) (bufs : Bufs α) (res : Res α) (v : List α) (hc : ∀ b ∈ bufs, b.length = c)
+    (hg : gather root bufs = some res) (hv : res[root]? = some (some v)) :
+    scatter root c (bufs.set root v) = some (bufs.map some) := by
+  unfold gather at hg
+  split at hg
+  · rename_i hlt
+    simp only [Option.some.injEq] at hg
+    subst hg
+    rw [onlyAt_getElem? _ _ _ _ hlt] at hv
+    simp only [if_true, Option.some.injEq] at hv
+    subst hv
+    unfold scatter
+    simp [hlt, flatten_length_const c bufs hc, chunks_flatten c bufs.length bufs rfl hc]
+  · cases hg
+
+/-- **any count, including 0 and counts below the communicator size**: the reduction of buffers of `c` cells has `c`
+cells (nothing in the spec or in the theorems of this file depends on `c ≥ np`) -/
+theorem reduce_count (op : α → α → α) (c : Nat) (bufs : Bufs α) (v : List α) (hb : ∀ b ∈ bufs, b.length = c)
+    (h : reduceAll op bufs = some v) : v.length = c := by
+  cases bufs with
+  | nil => simp [reduceAll] at h
+  | cons b bs =>
+    simp only [reduceAll, Option.some.injEq] at h
+    subst h
+    exact foldl_zipOp_length op c b bs (hb b (by simp)) (fun x hx => hb x (by simp [hx]))
+
+/-- count 0: every rank of a non-empty communicator gets the empty buffer from an allreduce -/
+theorem allreduce_count_zero (op : α → α → α) (bufs : Bufs α) (hne : bufs ≠ []) (hb : ∀ b ∈ bufs, b.length = 0) :
+    allreduce op bufs = some (everywhere bufs.length []) := by
+  cases hra : reduceAll op bufs with
+  | none => cases bufs with
+    | nil => exact absurd rfl hne
+    | cons b bs => simp [reduceAll] at hra
+  | some v =>
+    have := reduce_count op 0 bufs v hb hra
+    have hv : v = [] := List.eq_nil_of_length_eq_zero this
+    simp [allreduce, hra, hv]
+
+/-- non-vacuity: 3 ranks, 1 cell per block: transpose twice; counts 0 -/
+example : alltoall 1 [[1, 2, 3], [4, 5, 6], [7, 8, 9]] = some [some [1, 4, 7], some [2, 5, 8], some [3, 6, 9]] ∧
+    alltoall 1 [[1, 4, 7], [2, 5, 8], [3, 6, 9]] = some [some [1, 2, 3], some [4, 5, 6], some [7, 8, 9]] := by decide
+example : allreduce (· + ·) [([] : List Int), [], []] = some [some [], some [], some []] := by decide
+/-- non-vacuity: reduce_scatter of 3 ranks with counts 2,0,1 (a zero count, total 3 = np) -/
+example : reduceScatter (· + ·) [2, 0, 1] [[1, 2, 3], [10, 20, 30], [100, 200, 300]]
+    = some [some [111, 222], some [], some [333]] ∧
+    reduce (· + ·) 1 [[1, 2, 3], [10, 20, 30], [100, 200, 300]] = some [none, some [111, 222, 333], none] := by decide
+example : scatter 1 2 [[], [1, 2, 3, 4, 5, 6], []] = some [some [1, 2], some [3, 4], some [5, 6]] ∧
+    gather 1 [[1, 2], [3, 4], [5, 6]] = some [none, some [1, 2, 3, 4, 5, 6], none] := by decide
 
 /-! ## (B) schedules -/
 
